@@ -52,7 +52,7 @@ Print Assumptions C10_election_antisym_after_exchange.
    priority 50); this is the transient dual-active that C10_dual_active_resolves removes within one
    fresh exchange *)
 Example C10_stale_views_both_win :
-  let ca := mkCfg [97%N] 100 false 0 0 (fun _ => 0) in let cb := mkCfg [98%N] 200 false 0 0 (fun _ => 0) in
+  let ca := mkCfg [97%N] 100 false 0 0 (fun _ => 0) false in let cb := mkCfg [98%N] 200 false 0 0 (fun _ => 0) false in
   let na := mkNode Ready 100 50 (Some Waiting) true 0 [] in
   let nb := mkNode Ready 200 50 (Some Waiting) true 0 [] in
   n_st (fst (elect ca na (c_id cb))) = Active /\ n_st (fst (elect cb nb (c_id ca))) = Active /\
@@ -144,7 +144,7 @@ Theorem C10_standby_peer_lost : forall v cs es w,
 Proof. exact standby_peer_lost_spec. Qed.
 Print Assumptions C10_standby_peer_lost.
 
-Definition cs_track : cfgs := (mkCfg [49%N] 100 false 50 2 (fun _ => 0), mkCfg [50%N] 200 false 50 2 (fun _ => 0)).
+Definition cs_track : cfgs := (mkCfg [49%N] 100 false 50 2 (fun _ => 0) false, mkCfg [50%N] 200 false 50 2 (fun _ => 0) false).
 Definition to_standby_a : list ev := [EStart A; EStart B; ESend A; EDeliver B 0; EDeliver A 0].
 (* before 82065c3: down, deleted, up for ONE interface leave a phantom count; the STANDBY node
    then promotes itself on peer loss although no tracked interface is down *)
@@ -174,10 +174,10 @@ Theorem C10_dual_active_resolves_in_two : forall v cs a b w1 w2,
 Proof. exact dual_active_resolves_two. Qed.
 Print Assumptions C10_dual_active_resolves_in_two.
 
-Definition cs_plain_ab : cfgs := (mkCfg [49%N] 200 false 0 0 (fun _ => 0), mkCfg [50%N] 100 false 0 0 (fun _ => 0)).
+Definition cs_plain_ab : cfgs := (mkCfg [49%N] 200 false 0 0 (fun _ => 0) false, mkCfg [50%N] 100 false 0 0 (fun _ => 0) false).
 (* A (200) ACTIVE, B (100) STANDBY *)
 Definition to_standby_b : list ev := [EStart A; EStart B; ESend A; EDeliver B 0; EDeliver A 0].
-Definition cs_plain : cfgs := (mkCfg [49%N] 100 false 0 0 (fun _ => 0), mkCfg [50%N] 200 false 0 0 (fun _ => 0)).
+Definition cs_plain : cfgs := (mkCfg [49%N] 100 false 0 0 (fun _ => 0) false, mkCfg [50%N] 200 false 0 0 (fun _ => 0) false).
 (* before b0a3819: A forced out of STANDBY_ALONE while B is ACTIVE_SOLO; a complete exchange
    initiated by B leaves both ACTIVE *)
 Example C10_dual_active_resolves_refuted :
@@ -218,7 +218,7 @@ Theorem C10_fixpoint_has_active : forall v cs a b,
 Proof. exact fixpoint_has_active. Qed.
 Print Assumptions C10_fixpoint_has_active.
 
-Definition cs_design : cfgs := (mkCfg [49%N] 200 false 50 3 (fun _ => 0), mkCfg [50%N] 100 false 50 3 (fun _ => 0)).
+Definition cs_design : cfgs := (mkCfg [49%N] 200 false 50 3 (fun _ => 0) false, mkCfg [50%N] 100 false 50 3 (fun _ => 0) false).
 (* before 8396862 (DESIGN.md section 6): priorities 200/100, no preempt, the active node is
    decremented to 50, loses its peer one-sidedly, re-elects and loses: both STANDBY, in contact,
    not moved by exchanges in either direction *)
@@ -268,7 +268,7 @@ Print Assumptions C10_stale_filter_sound.
    heartbeat in flight.  A loses its peer (STANDBY_ALONE); the heartbeat built BEFORE the loss arrives afterwards:
    A re-elects, wins and is ACTIVE although nothing says the peer is back.  With the filter A stays STANDBY_ALONE. *)
 Example C10_stale_before_loss_refuted :
-  let cs := (mkCfg [49%N] 200 false 0 0 (fun _ => 0), mkCfg [50%N] 100 false 0 0 (fun _ => 0)) in
+  let cs := (mkCfg [49%N] 200 false 0 0 (fun _ => 0) false, mkCfg [50%N] 100 false 0 0 (fun _ => 0) false) in
   let es := [EStart A; EStart B; ESend A; EDeliver B 0; EDeliver A 0; ESwLocal A false; ESwRemote B;
              ESend B; EPeerLost A; EDeliver A 0] in
   n_st (p_a (snd (srun Head (mkSfix true false) cs (sinit, init_pair cs) es))) = Active /\
@@ -281,7 +281,7 @@ Print Assumptions C10_stale_before_loss_refuted.
    A (STANDBY, wins) applies the dual-standby rule to the outdated snapshot and undoes the switchover.
    HEAD ([mkSfix true false]) ignores it. *)
 Example C10_stale_reordered_refuted :
-  let cs := (mkCfg [49%N] 200 false 0 0 (fun _ => 0), mkCfg [50%N] 100 false 0 0 (fun _ => 0)) in
+  let cs := (mkCfg [49%N] 200 false 0 0 (fun _ => 0) false, mkCfg [50%N] 100 false 0 0 (fun _ => 0) false) in
   let es := [EStart A; EStart B; ESend A; EDeliver B 0; EDeliver A 0; ESend B; ESwLocal A false; ESwRemote B;
              ESend B; EDeliver A 1; EDeliver A 0] in
   n_st (p_a (snd (srun Head (mkSfix false false) cs (sinit, init_pair cs) es))) = Active /\
@@ -292,7 +292,7 @@ Print Assumptions C10_stale_reordered_refuted.
 
 (* the first witness without the bookkeeping; the dual-active pair is resolved by the next fresh exchange *)
 Example C10_stale_heartbeat_repromotes :
-  let cs := (mkCfg [49%N] 200 false 0 0 (fun _ => 0), mkCfg [50%N] 100 false 0 0 (fun _ => 0)) in
+  let cs := (mkCfg [49%N] 200 false 0 0 (fun _ => 0) false, mkCfg [50%N] 100 false 0 0 (fun _ => 0) false) in
   let es := [EStart A; EStart B; ESend A; EDeliver B 0; EDeliver A 0; ESwLocal A false; ESwRemote B;
              ESend B; EPeerLost A] in
   let s := run Head cs (init_pair cs) es in
@@ -462,7 +462,7 @@ Print Assumptions C10_head_overflow_policy_admissible.
 (* ---- equal node ids (configuration error, excluded by ids_ok) ---- *)
 (* with equal ids and equal priorities both nodes lose every tie: both STANDBY, for ever *)
 Example C10_equal_ids_observation :
-  let cs := (mkCfg [120%N] 100 false 0 0 (fun _ => 0), mkCfg [120%N] 100 false 0 0 (fun _ => 0)) in
+  let cs := (mkCfg [120%N] 100 false 0 0 (fun _ => 0) false, mkCfg [120%N] 100 false 0 0 (fun _ => 0) false) in
   let s := run Head cs (init_pair cs) [EStart A; EStart B; ESend A; EDeliver B 0; EDeliver A 0] in
   absn (p_a s, p_b s) = (Standby, true, Standby, true) /\
   absn (xchgs Head cs [A; B; A; B] (p_a s, p_b s)) = (Standby, true, Standby, true).
